@@ -216,7 +216,7 @@ fn gen_other(t: &mut Tape, pool: &Pool, p: &IlParams, max_blocks: usize, allow_i
     // `index: Some(_)` is used as a flag here (a ControlFlowGraph has no index): the graph is merged
     // before it is handed to append / insert, so that its block indices have holes
     let premerge = if allow_invalid && t.chance(1, 4) { Some(1) } else { None };
-    FnSpec { address: 0x4000, blocks, edges, entry, exit, gaps: vec![], index: premerge }
+    FnSpec { address: 0x4000, blocks, edges, entry, exit, gaps: vec![], index: premerge, swaps: vec![] }
 }
 
 fn gen_ref_head(t: &mut Tape) -> Ref {
